@@ -360,7 +360,7 @@ impl<'p> Evaluator<'_, 'p> {
                         result.push_str(line);
                     }
                 } else {
-                    escape_string_json(&s, result);
+                    escape_string_yaml(&s, result);
                 }
             }
             ValueData::Array(array) => {
@@ -454,7 +454,7 @@ impl<'p> Evaluator<'_, 'p> {
                                 .push(State::AppendToString(field_name.value().into()));
                         } else {
                             let mut name_manifested = String::new();
-                            escape_string_json(field_name.value(), &mut name_manifested);
+                            escape_string_yaml(field_name.value(), &mut name_manifested);
                             self.state_stack
                                 .push(State::AppendToString(name_manifested));
                         }
@@ -907,6 +907,22 @@ pub(super) fn escape_string_json(s: &str, result: &mut String) {
         }
     }
     result.push('"');
+}
+
+fn escape_string_yaml(s: &str, result: &mut String) {
+    // U+FFFE and U+FFFF are not printable characters in YAML: a document
+    // that contains them unescaped is rejected by YAML parsers.
+    if s.contains(['\u{FFFE}', '\u{FFFF}']) {
+        let mut escaped = String::new();
+        escape_string_json(s, &mut escaped);
+        result.push_str(
+            &escaped
+                .replace('\u{FFFE}', "\\ufffe")
+                .replace('\u{FFFF}', "\\uffff"),
+        );
+    } else {
+        escape_string_json(s, result);
+    }
 }
 
 pub(super) fn escape_string_python(s: &str, result: &mut String) {
